@@ -27,6 +27,7 @@ def run(chk: Check):
     var_wiring(chk, rng)
     chains(chk, rng)
     groups(chk, rng)
+    distreg(chk, rng)
 
 
 VW_MC = """CONSTANTS NV = 2 NN = {nn} Kind <- Kind{nn} Names = {names} Atomic = {atomic}
@@ -129,3 +130,19 @@ def groups(chk, rng):
     cfg = 'CONSTANTS NM = 4 GNames = {"a", "b"} Atomic = FALSE MaxGroups = 99\n'
     chk.tv("Trace_Groups.tla", trs, tag="groups", cfg_extra=cfg, keyfn=lambda r: f"groups:{r.conjunct}",
            describe=lambda r: str(r.trace["ev"][r.line - 1])[:300])
+
+
+def distreg(chk, rng):
+    """DistReg.tla: order-dependent assembly rules of DistRegBuilder, as coded."""
+    cfg = 'CONSTANTS Preds = {"loc", "scale"} Explicit = {"", "s"}\n'
+    chk.mc("MC_DistReg.tla", cfg + "SPECIFICATION Spec\nCONSTRAINT Bound\nINVARIANT InputsAreRegistered\n"
+           "INVARIANT InputNamesDistinct\nINVARIANT ResponseWiredToAllPredictors\n", tag="distreg",
+           expect_actions=["AddResponse", "AddPredictor", "AddPSmooth", "AddNPSmooth"], workers=4,
+           what="2 predictors, automatic / one explicit smooth name, <= 3 smooths per predictor, every call order")
+    trs = [D.distreg_trace(rng, 12) for _ in range(80 if chk.quick else 2000)]
+    chk.tv("Trace_DistReg.tla", trs, tag="distreg", cfg_extra=cfg, keyfn=lambda r: f"distreg:{r.conjunct}",
+           describe=lambda r: str([(e["op"], e.get("p"), e.get("name"), e["rej"]) for e in r.trace["ev"][:r.line]])[:400])
+    chk.note("G4 (not a listed property): DistRegBuilder error paths are not atomic - add_np_smooth for an unknown predictor "
+             "registers the smooth name before failing with a KeyError; a smooth whose explicit name clashes with a group of "
+             "another predictor is wired into its predictor before add_groups raises; re-adding a predictor keeps the old "
+             "smooth names taken (RegistryIsInputs is refuted by TLC for the as-coded spec)")
